@@ -176,8 +176,51 @@ func FlowMod() *Mod[flow.Rule] {
 		}
 		return al
 	}
+	m.Vary = func(r *rng.R, t *flow.Rule) {
+		switch r.Intn(11) {
+		case 0:
+			t.Threshold += 3
+		case 1:
+			t.ControlBehavior = flow.Reject + flow.Throttling - t.ControlBehavior
+			if t.ControlBehavior != flow.Reject && t.ControlBehavior != flow.Throttling {
+				t.ControlBehavior = flow.Reject
+			}
+		case 2:
+			t.MaxQueueingTimeMs += 100
+		case 3:
+			t.WarmUpPeriodSec += 1
+		case 4:
+			t.WarmUpColdFactor = t.WarmUpColdFactor%7 + 2
+		case 5:
+			t.StatIntervalInMs += 1000
+		case 6:
+			t.RefResource += "x"
+		case 7:
+			t.LowMemUsageThreshold += 1
+		case 8:
+			if t.HighMemUsageThreshold > 1 {
+				t.HighMemUsageThreshold -= 1
+			} else {
+				t.Threshold += 1
+			}
+		case 9:
+			if t.MemLowWaterMarkBytes+1 < t.MemHighWaterMarkBytes || t.TokenCalculateStrategy != flow.MemoryAdaptive {
+				t.MemLowWaterMarkBytes += 1
+			} else {
+				t.Threshold += 1
+			}
+		default:
+			if t.MemHighWaterMarkBytes+1 <= int64(system_metric.TotalMemorySize) {
+				t.MemHighWaterMarkBytes += 1
+			} else {
+				t.Threshold += 1
+			}
+		}
+	}
 	m.Blocks = func(t *flow.Rule) bool {
-		return t.Threshold == 0 && t.TokenCalculateStrategy == flow.Direct && t.ControlBehavior == flow.Reject && t.RelationStrategy == flow.CurrentResource
+		// direct calculator with threshold 0: the reject checker finds 0+1 > 0, the throttling checker rejects a threshold <= 0
+		// (whatever node the rule reads: the resource's own or the referenced resource's, both hold 0)
+		return t.Threshold == 0 && t.TokenCalculateStrategy == flow.Direct
 	}
 	m.Probe = func(res string) (bool, *flow.Rule) {
 		Clk.AddMs(2000)
@@ -231,6 +274,7 @@ func IsoMod() *Mod[isolation.Rule] {
 		}
 		return al
 	}
+	m.Vary = func(r *rng.R, t *isolation.Rule) { t.Threshold = t.Threshold%1000 + 1 }
 	m.Blocks = func(t *isolation.Rule) bool { return t.Threshold < 5 }
 	m.Probe = func(res string) (bool, *isolation.Rule) {
 		e, b := sentinel.Entry(res, sentinel.WithBatchCount(5))
@@ -415,9 +459,63 @@ func HotMod() *Mod[hotspot.Rule] {
 		return al
 	}
 	// the probe carries two arguments and the attachment "k", none of them a specific item, so every
-	// rule of the alphabet finds its parameter; a rule rejects the first request of a value iff its
-	// threshold is 0
-	m.Blocks = func(t *hotspot.Rule) bool { return t.Threshold == 0 }
+	// rule with a param key or a param index in -2..1 finds its parameter; such a rule rejects the first
+	// request of a value iff its threshold is 0
+	m.Vary = func(r *rng.R, t *hotspot.Rule) {
+		switch r.Intn(10) {
+		case 0:
+			t.Threshold += 1
+		case 1:
+			if t.DurationInSec > 0 {
+				t.MetricType = hotspot.Concurrency + hotspot.QPS - t.MetricType
+			} else {
+				t.Threshold += 2
+			}
+		case 2:
+			if t.ControlBehavior == hotspot.Reject {
+				t.ControlBehavior = hotspot.Throttling
+			} else {
+				t.ControlBehavior = hotspot.Reject
+			}
+		case 3:
+			if t.ParamKey == "" {
+				t.ParamIndex = (t.ParamIndex+2)%3 - 1 // stays within the probe's two arguments
+			} else {
+				t.Threshold += 3
+			}
+		case 4:
+			if t.ParamKey == "" && t.ParamIndex <= 0 {
+				t.ParamKey = "k"
+			} else if t.ParamKey != "" {
+				t.ParamKey = ""
+			} else {
+				t.Threshold += 4
+			}
+		case 5:
+			t.MaxQueueingTimeMs += 7
+		case 6:
+			t.BurstCount += 1
+		case 7:
+			t.DurationInSec += 1
+		case 8:
+			t.ParamsMaxCapacity += 10
+		default:
+			ni := map[interface{}]int64{5: 1}
+			for k, v := range t.SpecificItems {
+				ni[k] = v
+			}
+			if _, ok := t.SpecificItems[5]; ok {
+				delete(ni, 5)
+				if len(ni) == 0 && t.SpecificItems != nil {
+					ni[6] = 2
+				}
+			}
+			t.SpecificItems = ni
+		}
+	}
+	m.Blocks = func(t *hotspot.Rule) bool {
+		return t.Threshold == 0 && (t.ParamKey != "" || (t.ParamIndex >= -2 && t.ParamIndex <= 1))
+	}
 	m.Probe = func(res string) (bool, *hotspot.Rule) {
 		Clk.AddMs(5000)
 		e, b := sentinel.Entry(res, sentinel.WithArgs(11, 11), sentinel.WithAttachments(map[interface{}]interface{}{"k": 11}))
@@ -556,6 +654,36 @@ func BrkMod() *Mod[cb.Rule] {
 		return x == y && feq(tx, ty)
 	}
 	m.Alphabet = func(r *rng.R, res []string, ref string) []*cb.Rule { return BrkAlphabet(r, res) }
+	m.Vary = func(r *rng.R, t *cb.Rule) {
+		switch r.Intn(8) {
+		case 0:
+			if t.Threshold <= 1 && t.Strategy <= cb.ErrorCount {
+				t.Strategy = (t.Strategy + 1) % 3
+			} else {
+				t.RetryTimeoutMs += 100
+			}
+		case 1:
+			t.RetryTimeoutMs += 500
+		case 2:
+			t.MinRequestAmount += 1
+		case 3:
+			t.StatIntervalMs += 1000
+		case 4:
+			t.StatSlidingWindowBucketCount = (t.StatSlidingWindowBucketCount + 1) % 3
+		case 5:
+			t.MaxAllowedRtMs += 5
+		case 6:
+			if t.Strategy == cb.ErrorCount {
+				t.Threshold += 1
+			} else if t.Threshold+0.05 <= 1 {
+				t.Threshold += 0.05
+			} else {
+				t.Threshold = 0.1
+			}
+		default:
+			t.ProbeNum += 1
+		}
+	}
 	m.Blocks = BrkTrips
 	// the probe: one request that fails, then a second one at the same instant — it is rejected iff
 	// some breaker in force opened on the first, by the first such breaker in checking order
